@@ -492,6 +492,43 @@ func directed() []Directed {
 				{Kind: "restartfault"}, rv(1), rv(1), qu(filtA, 0, 9, 2, 0),
 			}
 		}},
+		{Name: "key-position-64-and-beyond", Ops: func(int) []Op {
+			// events with 66 keys; filters that constrain only position 62 / 63 / 64 / 65 (everything before is
+			// unconstrained): the position index is appended to the key as a varint in three places of the
+			// code — the producer of the header bloom, TestBloom (pre-confirmed blocks, subscriptions) and the
+			// candidate computation on the aggregated index — and grows to two bytes at position 64
+			deep := func(shift int) Plan {
+				ks := make([]int, 66)
+				for i := range ks {
+					ks[i] = (i + shift) % nKeyCommon
+				}
+				return Plan{{Ev{From: 2, Keys: ks}}, {Ev{From: 3, Keys: []int{1}}}}
+			}
+			at := func(pos, key int) Filt {
+				f := Filt{Keys: make([][]int, pos+1)}
+				for i := range f.Keys {
+					f.Keys[i] = []int{}
+				}
+				f.Keys[pos] = []int{key}
+				return f
+			}
+			ops := []Op{st(2, nil), st(1, deep(0)), st(1, nil), st(1, deep(1)), st(2, nil)} // events in 2 and 4, head 6
+			for _, pos := range deepKeyPos {
+				hit, miss := pos%nKeyCommon, (pos+2)%nKeyCommon
+				ops = append(ops, qu(at(pos, hit), 0, 6, 3, 0), qu(at(pos, miss), 0, 6, 3, 0), qu(at(pos, (pos+1)%nKeyCommon), 0, 6, 1, 1),
+					Op{Kind: "query", Q: &Q{F: at(pos, hit), From: 0, To: 6, Chunk: 2, Rpc: true}},
+					Op{Kind: "query", Q: &Q{F: at(pos, (pos+1)%nKeyCommon), From: 0, To: 6, Chunk: 2, Rpc: true, Api: "v9"}},
+					Op{Kind: "query", Q: &Q{F: at(pos, hit), From: 0, To: 6, Chunk: 2, Rpc: true, Api: "v8"}},
+					// pre-confirmed blocks: the TestBloom path
+					Op{Kind: "query", Q: &Q{F: at(pos, hit), From: 0, To: 9, ToTag: "pre_confirmed", Chunk: 2, Pre: []Plan{deep(0), nil, deep(1)}}},
+					Op{Kind: "query", Q: &Q{F: at(pos, (pos+1)%nKeyCommon), From: 5, To: 9, ToTag: "pre_confirmed", Chunk: 5, Rpc: true, Pre: []Plan{deep(1), deep(0)}}})
+			}
+			ops = append(ops, Op{Kind: "restart"})
+			for _, pos := range deepKeyPos {
+				ops = append(ops, qu(at(pos, pos%nKeyCommon), 0, 6, 3, 0))
+			}
+			return ops
+		}},
 		{Name: "pruned-database-opened-without-prune-mode", Pruning: true, Ops: func(int) []Op {
 			return []Op{
 				st(24, nil), st(1, evA), st(1, evB), st(2, nil), // 28 blocks, A in 24, B in 25
